@@ -184,3 +184,12 @@ Proof.
       destruct (add_check K_footer sa) as [sb [e|]]; [reflexivity|]. vmdk_tail sb.
   - vmdk_tail s.
 Qed.
+
+(* The guard literals of the hooks as they were when the hand-written hooks were transcribed.  The model follows the
+   regenerated constants (so the lemmas above survive a changed literal); this lemma does not: a changed limit, cap or
+   window size is reported as a broken obligation even when model and code still agree. *)
+Lemma hook_literals_equiv :
+  (VMDK_TYPE_CAP, VMDK_FOOTER_LEN, VMDK_DESC_OFFSET, VMDK_DESC_MAX_SIZE, VMDK_MIN_SPARSE_HEADER) = (64, 1536, 512, 1048575, 64) /\
+  (VHDX_RT_LIMIT, VHDX_MT_LIMIT, VHDX_META_A * VHDX_META_B, VHDX_VHDX_METADATA_TABLE_MAX_SIZE, VHDX_MT_MIN) = (2048, 2048, 65536, 65536, 32) /\
+  QCOW_HDR_SLICE = 32.
+Proof. repeat split. Qed.
